@@ -78,5 +78,14 @@ TEXT = {
                 "Krylov dimension) to a 1e-9-based bound",
         "technique": "runtime monitoring: differential oracle (reference eigendecomposition with constructed spectrum) with sub-expression blame",
     },
+    "C10": {
+        "level": "Held on the executions observed: operators with constructed simple spectra x k x LM/SM x algorithm x iteration cap; "
+                 "every returned pair judged for residual, non-zero/independent (orthonormal when self-adjoint) vectors, count and a "
+                 "tie-aware magnitude-selection test against the reference spectrum; eigmax/eigmin likewise.",
+        "note": _NOTE + "; power iteration (bounded-progress restatement) is judged only when the reference spectrum has a dominance "
+                "ratio <= 0.8, to 1e-4; Krylov paths are judged with at least n iterations in double precision; LOBPCG is not in "
+                "the statement's list and is not judged",
+        "technique": "runtime monitoring: reference-spectrum oracle (tie-aware selection, residuals, orthonormality) over generated spectra",
+    },
 }
 NOT_APPLICABLE = {}
